@@ -384,6 +384,24 @@ def intercepted(an, to_tree, g, edge_node):
                 return False
             if isinstance(e, ast.Name) and e.id == v.id:
                 return True
+            if isinstance(e, ast.Name) and e.id != v.id:
+                # the explicit spelling of all(isinstance(item, Config) for item in V):
+                #     flag = True; for item in V: if not isinstance(item, Config): flag = False; break
+                from engine.defuse import reaching_defs
+                rd_ = reaching_defs(to_tree)
+                tn = [t_ for t_ in g0.nodes if t_.kind == "test" and t_.ast is e]
+                defs_ = rd_.reaching(tn[0], e.id) if tn else []
+                consts = sorted(repr(d_.value.value) for d_ in defs_ if d_.kind == "assign" and isinstance(d_.value, ast.Constant))
+                if len(defs_) == 2 and consts == ["False", "True"]:
+                    fd = [d_ for d_ in defs_ if d_.value.value is False][0]
+                    for t2, tr2 in dominating_guards(an, to_tree, fd.node):
+                        a2 = t2.ast
+                        if (not tr2) and isinstance(a2, ast.Call) and isinstance(a2.func, ast.Name) and a2.func.id == "isinstance" and len(a2.args) == 2 \
+                                and isinstance(a2.args[0], ast.Name) and "Config" in (ftt.class_spec(a2.args[1], {}) or []):
+                            srcs_ = value_sources(to_tree, a2.args[0], t2)
+                            if srcs_ and all(k_ == "iter" and isinstance(p_[0], ast.Name) and p_[0].id == v.id for k_, p_ in srcs_):
+                                return True
+                return False
             if isinstance(e, ast.Call) and isinstance(e.func, ast.Name) and e.func.id == "isinstance" and len(e.args) == 2 \
                     and isinstance(e.args[0], ast.Name) and e.args[0].id == v.id:
                 spec = ftt.class_spec(e.args[1], {}) or []
